@@ -204,3 +204,19 @@ MUTATIONS += [
     ("proxy-cache-strong-refs", ["C10"], CO2, "        self._dict[key] = weakref.ref(value, remover)", "        self._dict[key] = (lambda v=value: v)"),
     ("handle-del-ignores-count", ["C10"], P, "        self._local_objects.decref(get_id_pack(obj), count)", "        self._local_objects.decref(get_id_pack(obj))"),
 ]
+
+L = "rpyc/lib/__init__.py"
+MUTATIONS += [
+    # ---- C15: async results
+    ("asyncresult-call-ignores-expiry", ["C15"], A, "        if self.expired:\n            return\n        self._is_exc = is_exc", "        self._is_exc = is_exc"),
+    ("add-callback-after-ready-not-invoked", ["C15"], A, "        if self._is_ready:\n            func(self)\n        else:\n            self._callbacks.append(func)", "        self._callbacks.append(func)"),
+    ("callbacks-reverse-order", ["C15"], A, "        for cb in self._callbacks:\n            cb(self)", "        for cb in reversed(self._callbacks):\n            cb(self)"),
+    ("sync-request-ignores-config-timeout", ["C15"], P, '        timeout = self._config["sync_request_timeout"]\n        return self.async_request(handler, *args, timeout=timeout).value',
+     '        timeout = 30\n        return self.async_request(handler, *args, timeout=timeout).value'),
+    ("timed-not-setting-expiry", ["C15"], HP, "        res = self.proxy(*args, **kwargs)\n        res.set_expiry(self.timeout)\n        return res", "        res = self.proxy(*args, **kwargs)\n        return res"),
+    ("timeout-expired-strict-gt", ["C15"], L, "        return self.finite and time.time() >= self.tmax", "        return self.finite and time.time() > self.tmax + 0.01"),
+    ("ready-serves-when-expired", ["C15"], A, "        if self._ttl.expired():\n            return False\n        self._conn.poll_all()", "        self._conn.poll_all()"),
+    ("value-caches-nothing-raises-once", ["C15"], A, "        if self._is_exc:\n            raise self._obj\n        else:\n            return self._obj",
+     "        if self._is_exc:\n            self._is_exc = False\n            raise self._obj\n        else:\n            return self._obj"),
+    ("expired-property-ignores-ready", ["C15"], A, "        return not self._is_ready and self._ttl.expired()", "        return self._ttl.expired()"),
+]
